@@ -147,12 +147,90 @@ def analyse(repo, cons, fi, pname):
     return events, [worst]
 
 
+def check_reiterable_premise(repo, rep):
+    """R13b: R13a treats a name re-bound through memorize() as re-iterable.
+    That holds only if every pass gets its own cursor: the class of the
+    returned object answers __iter__ with a *new* instance (or is a
+    generator method), and keeps its position per instance."""
+    ut = repo.module('yaql.language.utils')
+    fi = ut.func('memorize')
+    n = 0
+    for r in model.walk_shallow(fi.node):
+        if not isinstance(r, ast.Return) or r.value is None:
+            continue
+        v = r.value
+        if isinstance(v, ast.Name) and v.id in fi.params():
+            continue       # not an iterator: handed back unchanged
+        site = '%s/return[%s]' % (fi.key, model.norm(v)[:40])
+        cls = None
+        if isinstance(v, ast.Call) and isinstance(v.func, ast.Name):
+            cls = ut.classes.get(fi.qualname + '.' + v.func.id) or \
+                ut.classes.get(v.func.id)
+        if cls is None:
+            gen_ok = isinstance(v, ast.Call) and isinstance(
+                v.func, ast.Name) and (ut.functions.get(
+                    fi.qualname + '.' + v.func.id) is not None)
+            rep.ob('R13b', site, False if not gen_ok else True,
+                   'memorize returns `%s`, which is not an instance of a '
+                   'class defined here: cannot establish that it can be '
+                   'iterated more than once' % model.norm(v),
+                   loc=ut.loc(r))
+            continue
+        n += 1
+        it = cls.methods.get('__iter__')
+        ok = False
+        why = 'has no __iter__'
+        if it is not None:
+            if consume.is_generator(it.node):
+                ok = True
+            else:
+                rets = [x.value for x in model.walk_shallow(it.node)
+                        if isinstance(x, ast.Return)]
+                fresh = [x for x in rets if isinstance(x, ast.Call) and
+                         isinstance(x.func, ast.Name) and
+                         x.func.id == cls.node.name]
+                ok = bool(rets) and len(fresh) == len(rets)
+                why = 'returns %s' % ', '.join(
+                    '`%s`' % model.norm(x) for x in rets if x not in fresh)
+        rep.ob('R13b', site + '/__iter__', ok,
+               'the object memorize() returns answers __iter__ with %s '
+               'instead of a new cursor: two passes over a memorized '
+               'collection (nested loops, a second scan) share one '
+               'position, so the second sees only what the first left' % (
+                   why[8:] if why.startswith('returns ') else why),
+               loc=ut.loc(it.node if it else cls.node),
+               construct=model.norm(it.node)[:120] if it else cls.node.name)
+        for mname in ('__next__', '__init__', '__iter__'):
+            m = cls.methods.get(mname)
+            if m is None:
+                continue
+            shared = [x for x in model.walk_shallow(m.node)
+                      if isinstance(x, (ast.Nonlocal, ast.Global))]
+            idx_writes = [x for x in model.walk_shallow(m.node)
+                          if isinstance(x, (ast.AugAssign, ast.Assign)) and
+                          any(isinstance(t, ast.Name) for t in (
+                              [x.target] if isinstance(x, ast.AugAssign)
+                              else x.targets))
+                          and shared]
+            rep.ob('R13b', site + '/' + mname + '/per-instance-position',
+                   not idx_writes,
+                   '%s.%s keeps its position in a variable shared by all '
+                   'cursors (%s)' % (cls.node.name, mname, ', '.join(
+                       model.norm(x) for x in idx_writes[:2])),
+                   loc=ut.loc(m.node))
+    rep.floor('re-iterable wrapper classes checked', n, 1)
+
+
 def run(repo, rep):
     rep.rule('R13a', 'ITERATOR-LINEARITY: along every CFG path a parameter '
              'that admits a one-shot iterator is consumed (iterated, handed '
              'to a consumer, returned) at most once, and never inside a '
              'loop, unless first re-bound to a re-iterable (memorize/tuple/'
              'to_list) or to an explicit cursor (iter())')
+    rep.rule('R13b', 'RE-ITERABLE PREMISE: the object utils.memorize '
+             'returns hands out a new cursor per __iter__ and keeps its '
+             'position per instance (what R13a relies on when a parameter '
+             'is re-bound through memorize)')
     rep.trusted += ['eager/lazy consumer catalogue in sa/consume.py']
     rep.explanation = (
         'Necessary clause of the property: a function that consumes a '
@@ -161,6 +239,7 @@ def run(repo, rep):
         'per parameter on the statement CFG (loops unrolled twice).')
     uni = unimod.Universe(repo)
     cons = consume.Consumption(repo, uni)
+    check_reiterable_premise(repo, rep)
     seen = set()
     n = 0
     nev = 0
